@@ -238,7 +238,11 @@ func checkC15(c *Ctx) {
 	if c.Anchor("R15.1", "log.(*Logger).output (installed toolchain)", stdOutput != nil) {
 		w.bridges[stdOutput.String()+"|invoke (io.Writer).Write"] = []*ssa.Function{lw}
 	}
-	w.bridges[lw.String()+"|dyn l.logFunc"] = []*ssa.Function{c.Method(zp, "Logger", "Info")}
+	if dc := dynFuncCall(lw); dc != nil {
+		w.bridges[lw.String()+"|dyn "+Desc(dc.Call.Value)] = []*ssa.Function{c.Method(zp, "Logger", "Info")}
+	} else {
+		w.bridges[lw.String()+"|dyn l.logFunc"] = []*ssa.Function{c.Method(zp, "Logger", "Info")}
+	}
 	for _, n := range []string{"log", "logAttrs"} {
 		if f := c.Method("log/slog", "Logger", n); f != nil {
 			w.bridges[f.String()+"|invoke (log/slog.Handler).Handle"] = []*ssa.Function{handle}
